@@ -100,7 +100,7 @@ func evalHello(r *ev.Run, c helloCase, ks [][]ech.Key, tail []byte, tag string) 
 	h := c.build()
 	stream := append(h.Record(), tail...)
 	res := echx.Feed(stream, ks[c.KeySet])
-	replay := map[string]any{"case": c, "stream": echx.Hex(stream)}
+	replay := map[string]any{"case": c, "stream": echx.Hex(stream), "keys": echx.KeysDoc(ks[c.KeySet])}
 	oc := "passthrough"
 	switch {
 	case res.Panic != nil:
